@@ -5,4 +5,4 @@ HERE="$(cd "$(dirname "$0")" && pwd)"
 cd "$HERE"
 /venv/bin/python harness/gen_constants.py > /dev/null
 cd lean
-lake build Tfv tfv-driver
+lake build Tfv tfv-driver tfv-inv
